@@ -469,4 +469,98 @@ theorem parseLines_spec (cur e : Env) (ls : List (Str × Str)) (out : Env) :
     | err x => rfl
     | panic x => rfl
 
+theorem decide_name_valid (s : Sources) (n : Str) (h : Spec.decide s = .name n) : validName n = true := by
+  unfold Spec.decide at h
+  split at h
+  · split at h
+    · rename_i hv; cases h; exact hv
+    · cases h
+  · split at h
+    · split at h
+      · rename_i hv; cases h; exact hv
+      · cases h
+    · split at h
+      · cases h
+      · rename_i t _
+        split at h
+        · rename_i hne
+          cases h
+          rcases normalize_valid t with h0 | h0
+          · exact absurd h0 hne
+          · exact h0
+        · split at h
+          · rename_i hne
+            cases h
+            rcases normalize_valid s.dirBase with h0 | h0
+            · exact absurd h0 hne
+            · exact h0
+          · cases h
+
+theorem run_ok_inv (w : World) (opts : List Opt) (r : Loaded) (h : run w opts = .ok r) :
+    ∃ o, runOpts w opts {} = .ok o ∧ load w o = .ok r := by
+  unfold run at h
+  split at h
+  · rename_i o ho; exact ⟨o, ho, h⟩
+  · cases h
+
+theorem runOpts_mem_error (w : World) (opts : List Opt) (o : PO) (x : Opt) (hx : x ∈ opts)
+    (hbad : ∀ o, ∃ e, applyOpt w o x = .error e) : ∃ e, runOpts w opts o = .error e := by
+  induction opts generalizing o with
+  | nil => cases hx
+  | cons y ys ih =>
+    simp only [runOpts]
+    cases hy : applyOpt w o y with
+    | error e => exact ⟨e, rfl⟩
+    | ok o1 =>
+      rcases List.mem_cons.mp hx with e | e
+      · subst e
+        obtain ⟨e, he⟩ := hbad o
+        rw [he] at hy; cases hy
+      · exact ih o1 e
+
+/-- the explicitly requested name: the argument of the last `WithName` (`[]` = none, or reset by `WithName("")`) -/
+def requestedName (opts : List Opt) (init : Str) : Str :=
+  lastOr init (opts.filterMap fun | .withName n => some n | _ => none)
+
+theorem withEnvFiles_name (w : World) (o o' : PO) (fs : List Str) (h : withEnvFiles w o fs = .ok o') :
+    o'.name = o.name := by
+  unfold withEnvFiles at h
+  have hd : (defaultEnvFile w o).name = o.name := by
+    unfold defaultEnvFile; split <;> rfl
+  split at h
+  · cases h; rfl
+  · split at h
+    · split at h
+      · cases h
+      · cases h; rfl
+      · cases h; exact hd
+    · cases h; exact hd
+
+theorem runOpts_name (w : World) (opts : List Opt) (o o' : PO) (h : runOpts w opts o = .ok o') :
+    o'.name = requestedName opts o.name := by
+  induction opts generalizing o with
+  | nil => simp only [runOpts] at h; cases h; rfl
+  | cons x xs ih =>
+    simp only [runOpts] at h
+    split at h
+    · rename_i o1 h1
+      rw [ih o1 h]
+      cases x with
+      | withName n =>
+        simp only [applyOpt] at h1
+        split at h1
+        · cases h1; simp [requestedName, lastOr]
+        · cases h1
+      | withEnv l => simp only [applyOpt] at h1; cases h1; simp [requestedName]
+      | withOsEnv => simp only [applyOpt] at h1; cases h1; simp [requestedName]
+      | withEnvFiles fs =>
+        simp only [applyOpt] at h1
+        simp [requestedName, withEnvFiles_name w o o1 fs h1]
+      | withDotEnv =>
+        simp only [applyOpt] at h1
+        split at h1
+        · cases h1; simp [requestedName]
+        · cases h1
+    · cases h
+
 end CV.Name
